@@ -218,12 +218,29 @@ func c08Case(rt *rapid.T, rec *vt.Rec) {
 	// counts for THIS request is each host's check-in as of now, not as of the earlier request (a host list kept
 	// from one request to the next goes stale with the first keep-alive).
 	if nHosts+nClients > 1 && rapid.IntRange(0, 3).Draw(rt, "earlierRequest") == 0 {
-		pi := (reqIdx + 1 + rapid.IntRange(0, nHosts+nClients-2).Draw(rt, "earlierRequester")) % (nHosts + nClients)
+		// (by anybody - also by the requester itself: an agent asks again on every round until it has enough peers)
+		pi := rapid.IntRange(0, nHosts+nClients-1).Draw(rt, "earlierRequester")
 		tp := time.Now()
 		_, perr := s.peer(pi, 3, "")
 		logf("earlier request by %s (err=%v)", s.agents[pi].id.name, perr)
 		var resumed []string
 		for _, h := range hosts {
+			if _, live := s.model.liveHost(s.agents[h.Idx].id.nodeID); live && rapid.IntRange(0, 3).Draw(rt, "hostMoves") == 0 {
+				// the host registers again over a new connection (the old one stays open, or closes afterwards):
+				// from now on instructions for it - also for a requester it acknowledged before - go over the new one
+				old := s.agents[h.Idx].lastConn()
+				ac2 := s.openConn(h.Idx, "")
+				s.model.connect(s.agents[h.Idx].id.nodeID, ac2.id, true, h.Kind, "")
+				if err := s.connect(h.Idx, ac2, true, h.Kind, ""); err != nil {
+					fail("host reconnect: %v", err)
+				}
+				if old != nil && old.open && rapid.Bool().Draw(rt, "closeOldAfterMove") {
+					s.closeConn(old)
+				}
+				h.age = -time.Since(tp)
+				resumed = append(resumed, h.Name+"(moved to conn#"+fmt.Sprint(ac2.id)+")")
+				continue
+			}
 			if h.Conn != "closed" && rapid.IntRange(0, 2).Draw(rt, "hostResumes") > 0 {
 				s.model.update(s.agents[h.Idx].id.nodeID, nil, 3)
 				if _, err := s.update(h.Idx, nil, 3, false, false); err != nil {
